@@ -516,7 +516,7 @@ pub fn run(ctx: &Ctx, rep: &mut Report) {
         cases,
         |ctx, p: &Plan, acc| check_plan(ctx, p, acc, true),
     );
-    let n = ctx.cases(8_000, 400_000);
+    let n = ctx.cases(40_000, 800_000);
     run_prop(
         ctx,
         rep,
@@ -559,7 +559,7 @@ pub fn run(ctx: &Ctx, rep: &mut Report) {
             check_plan(ctx, p, acc, true)
         },
     );
-    let n = ctx.cases(30_000, 600_000);
+    let n = ctx.cases(60_000, 1_000_000);
     run_prop(
         ctx,
         rep,
